@@ -33,7 +33,7 @@ func (c15) Assumptions() []string {
 		"keys are lower-case and free of dots; scalar strings are plain alphanumerics (YAML / argument quoting is not what this property is about)",
 	}
 }
-func (c15) NumCases(tier string) int      { return tierN(tier, 2500, 60000) }
+func (c15) NumCases(tier string) int      { return tierN(tier, 2500, 500000) }
 func (c15) MinNontrivial(tier string) int { return tierN(tier, 500, 5000) }
 
 var c15Keys = []string{"a", "b", "c", "srv", "db"}
